@@ -282,6 +282,11 @@ def edit_and_roundtrip(pj, w, path):
                 and ts[1] not in ts[0].all_predecessors else []
         except RuntimeError:
             pass
+    # an attribute that was not a column of the file the WBS came from (the writer must look at the tasks, not at
+    # what the reader saw), and a column of that file cleared on every task but the first
+    if ts:
+        ts[-1].addedlate = "x7"
+        ts[0].addedfirst = "y8"
     edited = project(w)
     pj.write_csv(w, path)
     back = project(pj.read_csv(path))
